@@ -7,7 +7,7 @@
    quiescent point after the last epoch, starting from a fresh server.  All statements quantify over all
    histories, i.e. over all multisets of requests and all interleavings. *)
 From Coq Require Import List NArith Bool.
-From Sccache Require Import Base.Sx Model.Stats Model.ReqSM Proofs.Stats Proofs.ReqSM.
+From Sccache Require Import Base.Sx Model.Stats Model.ReqSM Model.ReqSMExt Proofs.Stats Proofs.ReqSM.
 Import ListNotations.
 Local Open Scope N_scope.
 
@@ -107,6 +107,42 @@ Theorem C14_panic_is_an_error_outcome :
                 /\ program (KExecuted l OFatal) = [[ICompileRequests]; [IExecuted]; [ICacheError l]]).
 Proof. split; [exact execute_panic_is_error | intro l; split; reflexivity]. Qed.
 Print Assumptions C14_panic_is_an_error_outcome.
+
+(* A compile that the server EXECUTED and that only turned out not to be storable when the compile command was
+   generated (`Cacheable::No`: MSVC with a program database that already exists, some nvcc sub-commands) is an
+   executed request of the class "compiled without storing": it bumps compilations and
+   non_cacheable_compilations — and NOT requests_not_cacheable / the not_cached reasons, which count the requests
+   REFUSED while parsing arguments and handed back to the client (it would be in two of the four request classes
+   otherwise). *)
+Theorem C14_not_cacheable_compile_is_executed_only :
+  (forall f o st1 k pp mt,
+      o_c_panics o = false -> o_c_status o = 0 -> o_cacheable o = false -> mt <> MForcedNoCache ->
+      compile_and_store f o st1 k pp mt
+      = (st1, mk_response (CFinished 0 (o_c_stdout o) (o_c_stderr o))
+                          (if o_c_writes o then o_c_outputs o else []) pp 1 ONotCacheable))
+  /\ (forall l, let t := tsum (program (KExecuted l ONotCacheable)) in
+                t_requests t = 1 /\ t_executed t = 1 /\ t_not_cacheable t = 0 /\ t_not_cached_sum t = 0
+                /\ t_non_cacheable_comp t = 1 /\ t_compilations t = 1 /\ t_misses t = 0
+                /\ in_class CNotStored (KExecuted l ONotCacheable) = true).
+Proof.
+  split.
+  - intros f o st1 k pp mt Hp Hs Hc Hm. unfold compile_and_store. rewrite Hp, Hs, Hc. simpl.
+    destruct mt; try reflexivity. contradiction.
+  - intro l. cbv zeta. repeat split.
+Qed.
+Print Assumptions C14_not_cacheable_compile_is_executed_only.
+
+(* A request for which the distributed-compilation client cannot be obtained (`get_client()` fails: dist
+   configured with OAuth2 and no token) has already been counted as executed; the error goes through the same
+   result handling as every other error, so the request ends in the outcome class "error" (cache_errors) and is
+   answered — it is not left without an outcome. *)
+Theorem C14_dist_client_error_is_an_error_outcome :
+  forall o st,
+    request_dist_error QCompile o st
+    = (st, mk_response CFatal [] 0 0 OFatal, [[ICompileRequests]; [IExecuted]; [ICacheError (o_lang o)]])
+    /\ in_class CErr (KExecuted (o_lang o) OFatal) = true.
+Proof. intros o st. split; reflexivity. Qed.
+Print Assumptions C14_dist_client_error_is_an_error_outcome.
 
 (* Zeroing while a request is in flight breaks the laws at the next quiescent point (inherent: the request's
    earlier increments are wiped, its later ones are not); the property's "zeroing in between" is therefore
